@@ -250,7 +250,7 @@ print(json.dumps({"create_pipelines_error": err}))
 def bounded_instrument_histories(ctx):
     """Bounded stand-in (NOT a proof): random histories of parameter changes interleaved with reads on Spectrometer, CzernyTurnerSpectrometer
     and Polychromator; after every step the settings (range, bins, pipeline classes / keywords, pixel arrays) are compared with a freshly
-    constructed instrument with the same final parameters; for the plain Spectrometer also with an independent numpy formula."""
+    constructed instrument with the same final parameters; for the plain and the Czerny-Turner spectrometer also with an independent numpy formula over their own pixel edges (accommodated spectra in ascending, descending and mixed order)."""
     from replaylib.native import run_native
     n = 25 if ctx['tier'] == 'quick' else 300
     code = '''
@@ -312,12 +312,16 @@ for trial in range(%d):
         if rnd.random() < 0.7: view(inst)
         key = rnd.choice(["grating", "focal_length", "pixel_spacing", "diffraction_angle", "accommodated_spectra", "min_bins_per_pixel", "diffraction_order"])
         q[key] = {"grating": rnd.choice([1.2e-3, 2.4e-3, 1.8e-3]), "focal_length": rnd.choice([0.5e9, 1.0e9, 2.0e9]), "pixel_spacing": rnd.choice([1.0e4, 2.0e4, 4.0e4]),
-                  "diffraction_angle": rnd.choice([5.0, 10.0, 20.0]), "accommodated_spectra": rnd.choice([((600.0, 64),), ((500.0, 32), (650.0, 48)), ((450.0, 16),)]),
+                  "diffraction_angle": rnd.choice([5.0, 10.0, 20.0]), "accommodated_spectra": rnd.choice([((600.0, 64),), ((500.0, 32), (650.0, 48)), ((450.0, 16),), ((650.0, 48), (500.0, 32)), ((700.0, 24), (600.0, 96)),
+                                                                                                   ((480.0, 16), (690.0, 40), (560.0, 64))]),
                   "min_bins_per_pixel": rnd.randint(1, 3), "diffraction_order": rnd.choice([1, 2])}[key]
         try:
             setattr(inst, key, q[key]); cases += 1
-            if not same(view(inst), view(mk(q))):
-                bad.append({"instrument": "CzernyTurnerSpectrometer", "trial": trial, "after_setting": key, "bins": inst.spectral_bins, "fresh_bins": mk(q).spectral_bins}); break
+            w = inst.wavelength_to_pixel
+            lo, hi = min(a[0] for a in w), max(a[-1] for a in w); stp = min(np.diff(a).min() for a in w) / q["min_bins_per_pixel"]
+            if not same(view(inst), view(mk(q))) or inst.min_wavelength != lo or inst.max_wavelength != hi or inst.spectral_bins != int(np.ceil((hi - lo) / stp)):
+                bad.append({"instrument": "CzernyTurnerSpectrometer", "trial": trial, "after_setting": key, "accommodated_spectra": list(q["accommodated_spectra"]), "bins": inst.spectral_bins,
+                            "fresh_bins": mk(q).spectral_bins, "bins_from_its_own_pixel_edges": int(np.ceil((hi - lo) / stp)), "range": [inst.min_wavelength, inst.max_wavelength], "pixel_edge_range": [lo, hi]}); break
         except ValueError:
             break
     # polychromator
